@@ -41,7 +41,7 @@ CLAIMED = {
         note="'each exactly once' and 'nothing else runs' use C04 and L-NEEDED (Lean, lemmas/Needed.lean: a read node that survives pruning and is not the output has a surviving argument consumer). 'Read at most once' is 'one read node per registered node' (rewrite postcondition) plus C04; composing these facts is by hand, the bounded probe (store times before / around / after the wall clock) validates it. H4 assumes fresh_time is not in the future and pure sources (dependent sources: scope limit).",
     ),
     "C06": dict(
-        technique="engine invariant (completed and failed disjoint, put requires all predecessors completed), failure-lock invariant G5, concrete identity checks of NodeError / CallError objects on every path",
+        technique="engine invariant (completed and failed disjoint, put requires all predecessors completed), failure-lock invariant G5, concrete identity checks of NodeError / CallError objects on every path, totality of error construction on awkward user objects",
         text="Proved: the failure path never adds to 'completed' and never enqueues successors; first_node_error is written only when unset, names the thread's own node and carries the very exception; "
              "no exception escapes process_node (BaseException included); the coordinator raises exactly that object after the pool is drained; run turns NodeError e into CallError(e.node) from e.__cause__ - whatever the call raised (ordinary, falsy, already chained, itself the CallError of a nested run, a NodeError); create_chained_call_error always builds a new CallError for the given node.",
         note="'first failure with one worker' follows from G5 with worker_count = 1 (not a separate obligation). A registered Literal whose modified-time query fails yields AttributeError instead of CallError: known finding F4 (reported under C19). F6 (exceptions whose attributes cannot be assigned, e.g. frozen dataclasses, lost as the cause) was found in round 7 and fixed in /repo (925fe03). User values, stores, exceptions and callables are represented by awkward stand-ins (falsy, unhashable, equal-but-distinct) so that truthiness / equality slips on them fail identity obligations.",
@@ -85,7 +85,7 @@ CLAIMED = {
     "C13": dict(
         technique="frame obligations: run composition (the caller's plan is only ever passed to get_mutable_plan(inplace=False)), copies, inplace flags of every transformation, node attributes untouched by the rewrite; render on a read-only graph proxy",
         text="Proved on every path of run (registry / none / empty, dry run, failures in either phase, transform_physical): nothing but the copy is handed to any transformation (gather included); the registry only reaches plan_with_value_stores; Plan.copy / Registry.copy share no mutable container; _add_value_store leaves the node's own attributes alone and restores plan._scope; prune_* work on a copy unless inplace; render mutates only its own copy for every predicate / level combination (concrete-parametric).",
-        note='nxv.render is not under contract. networkx copy independence is T5.',
+        note='nxv.render is not under contract. networkx copy independence is T5 for networkx itself; the Graph class of the tree (an alias of MultiDiGraph at the pinned commit) is run natively: whatever is written on a copy (node attributes, edge data, structure, graph attributes) leaves the original untouched (plumbing.Graph.copy-is-independent). The bundled source stores (PathSource, LiteralSource, ModifiedTimeSource) are not changed by being queried (misc.sources).',
     ),
     "C14": dict(
         technique="path obligations on run (dry run returns exactly the pair the real run would execute, calls nothing afterwards), stale check never reads/writes a store, self-containedness from the rewrite postcondition",
@@ -96,7 +96,8 @@ CLAIMED = {
     "C15": dict(
         technique="trace postconditions on process / process_with_callbacks (exact suffix per outcome), totals functions, observer bracket in run, composite forwarding",
         text="Proved: each call produces running.completed / running.failed(CallError caused by the exception) / running only (non-Exception BaseException) with the full call scope (+ store class in the stale section); "
-             "totals are announced before the section runs, from the plan that is executed; the observer is entered first and exited last on every path; composites forward everything to every member.",
+             "totals are announced before the section runs, from the plan that is executed; the observer is entered first and exited last on every path; composites forward everything to every member; "
+             "the function name in a scope depends on the callable given and on nothing else (fully_qualified_name without its lru_cache, under an id() that reuses numbers of dead objects); building the CallError for a failed call never fails itself, whatever the user put into the call.",
         note="Observer methods are assumed not to raise (T7). That every callable Plan.call admits can be named by get_full_call_scope / CallError (so that a failure can be reported at all) is decided by a bounded stand-in over nine kinds of callable (plumbing.call-admission). Equality of completed and total in a successful run uses C04 (each call exactly once).",
     ),
     "C16": dict(
